@@ -1,8 +1,8 @@
 package main
 
 // Engine "mdns" (C18): discovery.MDNS fed with announcement packets through a
-// loopback UDP socket handed to its (overlay-exported) reader; one A/AAAA record
-// per packet so that the order of table updates is the order of packets.
+// loopback UDP socket handed to its (overlay-exported) reader; the records of one packet
+// all belong to one name, so that the order of table updates that matters is the order of packets.
 
 import (
 	"context"
@@ -17,13 +17,15 @@ import (
 
 func init() { register("mdns", mdnsEngine) }
 
-func mdnsPacket(name string, ip net.IP, extra bool, r *rng) []byte {
+func mdnsPacket(name string, ipl []net.IP, extra bool, r *rng) []byte {
 	ms := msgSpec{id: 0, flags: 0x8400}
 	nm := encodeName(name)
-	if v4 := ip.To4(); v4 != nil {
-		ms.an = append(ms.an, rr{name: nm, typ: 1, class: 0x8001, ttl: 120, rdata: v4})
-	} else {
-		ms.an = append(ms.an, rr{name: nm, typ: 28, class: 0x8001, ttl: 120, rdata: ip.To16()})
+	for _, ip := range ipl {
+		if v4 := ip.To4(); v4 != nil {
+			ms.an = append(ms.an, rr{name: nm, typ: 1, class: 0x8001, ttl: 120, rdata: v4})
+		} else {
+			ms.an = append(ms.an, rr{name: nm, typ: 28, class: 0x8001, ttl: 120, rdata: ip.To16()})
+		}
 	}
 	if extra {
 		// unrelated records the reader must skip
@@ -54,10 +56,32 @@ func mdnsEngine(args []string) error {
 		// history: a few distinct "interesting" names early (mixed case, shared addresses, conflicts),
 		// then filler names to exceed the cap in some histories, then re-announcements
 		var ops []string
+		known := map[string][]net.IP{}
 		send := func(name string, ip net.IP) {
-			pkt := mdnsPacket(name, ip, r.coin(20), r)
+			ipl := []net.IP{ip}
+			// every fifth announcement carries several records of the one name (A + AAAA, or the addresses
+			// announced before plus a new one, in either order): the entries of one name are kept sorted and
+			// stamped together, so the tables do not depend on the order in which the reader visits them
+			if r.coin(20) {
+				if old := known[name]; len(old) > 0 && r.coin(60) {
+					o := old[r.intn(len(old))]
+					if !o.Equal(ip) {
+						if r.coin(50) {
+							ipl = []net.IP{o, ip}
+						} else {
+							ipl = []net.IP{ip, o}
+						}
+					}
+				} else {
+					ipl = append(ipl, net.IP{0xfe, 0x80, 0, 0, 0, 0, 0, 0, 0, 0, 0, 0, 0, 1, byte(r.intn(4)), byte(r.intn(256))})
+				}
+			}
+			known[name] = append(known[name], ipl...)
+			pkt := mdnsPacket(name, ipl, r.coin(20), r)
 			_, _ = cl.Write(pkt)
-			ops = append(ops, sx(ip.String())+"="+sx(name+"."))
+			for _, x := range ipl {
+				ops = append(ops, sx(x.String())+"="+sx(name+"."))
+			}
 			// keep packets strictly ordered and stamps distinct
 			time.Sleep(20 * time.Microsecond)
 		}
